@@ -4,6 +4,8 @@
 //! writes `<dir>/<property>.<i>.req` (one request line per case, for the Lean model driver) and
 //! `<dir>/<property>.<i>.impl` (what the real lace code did on the same case), plus
 //! `<dir>/<property>.<i>.stats` (JSON: distribution of what was generated).
+mod asm;
+mod asmgen;
 mod cap;
 mod prng;
 mod vm;
@@ -84,6 +86,7 @@ fn main() {
     let o = parse_opts();
     match o.prop.as_str() {
         "C02" => vm::run(&o),
+        "C05" => asm::run(&o),
         other => {
             eprintln!("unknown property {other}");
             std::process::exit(2);
